@@ -448,7 +448,8 @@ static std::string extra_after_alloc(seq_state &st, S &stor, frame_rec &f, const
         os << " ex=+" << dc << "-" << dd << "@";
         const char *obj = reinterpret_cast<const char *>(stor.inventory);
         f.extra = obj;
-        if (obj && f.ptr) os << (obj - f.ptr); else os << "none";
+        // an offset is printed only when it is plausibly inside the frame's block (never an address-dependent number)
+        if (obj && f.ptr && obj >= f.ptr && obj - f.ptr < (1 << 24)) os << (obj - f.ptr); else os << (obj ? "far" : "none");
         bool ok = obj && extra_reg::live->count(obj) == 1 && extra_reg::last_ctor == obj && extra_reg::bad == s0.b;
         if (ok) {
             // usable right away: read the magic, check it is the object the factory made, write a tag
@@ -473,7 +474,11 @@ static std::string extra_after_free(seq_state &st, const frame_rec &f, const ex_
     long dc = extra_reg::ctor + extra_reg::mctor - s0.c - s0.m, dd = extra_reg::dtor - s0.d;
     os << " ex=+" << dc << "-" << dd << "@";
     bool ok = dd == 1 && extra_reg::last_dtor == f.extra && extra_reg::last_dtor_tag == f.extra_tag && extra_reg::bad == s0.b;
-    if (extra_reg::last_dtor && f.ptr && dd >= 1) os << (static_cast<const char *>(extra_reg::last_dtor) - f.ptr); else os << "none";
+    {
+        const char *ld = static_cast<const char *>(extra_reg::last_dtor);
+        if (ld && f.ptr && dd >= 1 && ld >= f.ptr && ld - f.ptr < (1 << 24)) os << (ld - f.ptr);
+        else os << ((ld && dd >= 1) ? "far" : "none");
+    }
     os << (ok ? ":ok" : ":bad");
     return os.str();
 }
